@@ -57,6 +57,8 @@ def build_ops(tier, full=True):
     for i in (0, 1, -1, "end"):
         for o in SIG6:
             ops.append(("insert", i, o))
+    for o in SIG3:
+        ops.append(("insert", "last", o))  # the positive index len(p) - 1 (just before the final opcode)
     for i in (0, 1, -2, -1):
         ops.append(("del", i))
     for i in (0, -2):
@@ -69,14 +71,14 @@ def build_ops(tier, full=True):
             ("clear_tail",)]
     ops += [("insert_python", "1+1", True, False), ("insert_python", "1+1", False, False), ("insert_python", "1+1", False, True),
             ("append_python", "2"), ("insert_magic_int", 7), ("insert_python_obj", 0), ("insert_python_exec", "pass")]
-    ops += [("read", "ast"), ("read", "props"), ("read", "sev")]
+    ops += [("read", "ast"), ("read", "props"), ("read", "sev"), ("read", "dumps")]
     return tuple(ops)
 
 
 def do_edit(p, op):
     k = op[0]
     if k == "insert":
-        i = len(p) if op[1] == "end" else op[1]
+        i = len(p) if op[1] == "end" else (len(p) - 1 if op[1] == "last" else op[1])
         p.insert(i, sym(op[2]))
     elif k == "del":
         del p[op[1]]
@@ -113,7 +115,13 @@ def do_edit(p, op):
     elif k == "insert_python_obj":
         p.insert_python_obj(op[1], [1, "a"])
     elif k == "read":
-        views(p, only=op[1])
+        if op[1] == "dumps":
+            p.dumps()
+            import io as _io
+
+            p.dump(_io.BytesIO())
+        else:
+            views(p, only=op[1])
     else:
         raise KeyError(op)
 
@@ -204,7 +212,9 @@ class Edits(e2.System):
                              tuple(sorted(map(repr, pr.likely_safe_imports)))))
             except Exception as e:  # noqa: BLE001
                 cp = ("unhashable-properties", type(e).__name__, len(pr.imports), len(pr.calls))
-        return (enc, ca, cp)
+        extra = tuple(sorted((k, digest(repr(v)[:2000])) for k, v in vars(p).items()
+                             if k not in ("_opcodes", "_ast", "_properties") and not callable(v)))
+        return (enc, ca, cp, extra)
 
 
 def _run_root(args):
